@@ -67,8 +67,8 @@ CLASSES = [
 ]
 FULL = [c for c, _ in CLASSES]
 # fewer classes for the longest strings: every Escape case and every tokenizer state is still reached
-REDUCED = [0x00, 0x01, 0x20, 0x2D, 0x2E, 0x37, 0x66, 0x47, 0x5C, 0x7F, 0x80, 0x1F600]
-SMALL = [0x00, 0x01, 0x0A, 0x20, 0x2D, 0x37, 0x66, 0x47, 0x5C, 0x5D, 0x7F, 0x9F, 0xD800, 0x1F600]
+REDUCED = [0x00, 0x01, 0x20, 0x2D, 0x37, 0x66, 0x5C, 0x7F, 0x80, 0x1F600]
+SMALL = [0x00, 0x01, 0x0A, 0x2D, 0x37, 0x66, 0x5C, 0x5D, 0x9F, 0xD800]
 
 
 def alt_table(seed):
